@@ -11,7 +11,10 @@
 (*   admitted:                                                             *)
 (*     with retry    the retry loop (RetryLoop!MStep) runs to its delivery *)
 (*                   point, then exactly one settlement by final outcome   *)
-(*     without retry one invocation, then exactly one settlement           *)
+(*     without retry one invocation, then exactly one settlement; with     *)
+(*                   attempt hooks: on_attempt_start before it, and        *)
+(*                   on_attempt_end BEFORE the settlement in call() but    *)
+(*                   AFTER it (and its breaker event) in execute()         *)
 (*   settlement = record_success | record_failure(k) | record_cancel,      *)
 (*                followed by the breaker event it returned (if any)       *)
 (*   deliver.                                                              *)
@@ -41,7 +44,8 @@ None == -1
 (***************************************************************************)
 PInit(pc) == [ph |-> "idle", ncall |-> 0, now |-> 0, t0 |-> 0,
               b |-> B!BInit, s |-> L!SInit(pc.rc), mode |-> "-",
-              bev |-> "-", bk |-> "-", view |-> [kind |-> "-"], out |-> "-", outk |-> "-"]
+              bev |-> "-", bk |-> "-", view |-> [kind |-> "-"], out |-> "-", outk |-> "-",
+              post |-> FALSE]    \* execute() without retry: on_attempt_end follows the settlement
 
 EvAllow(allowed, bev, state, at) ==
     [e |-> "allow", allowed |-> allowed, ev |-> bev, state |-> state, at |-> at]
@@ -159,7 +163,7 @@ BEmit(pc, p) ==
         { <<EvBEmit(p.bev, p.bk, p.b.st, pc.rc.opname, p.now - p.t0),
             [p EXCEPT !.ph = CASE p.ph = "bemit-run" -> "run"
                               [] p.ph = "bemit-rej" -> "deliver"
-                              [] p.ph = "bemit-done" -> "deliver"]>> }
+                              [] p.ph = "bemit-done" -> IF p.post THEN "aendpost" ELSE "deliver"]>> }
     ELSE {}
 
 \* admitted call with a retry component: the loop's own steps
@@ -178,7 +182,8 @@ Record(pc, p, op, k, view) ==
         res == B!BApply(pc.bc, p.b, op, k, at)
     IN  <<EvRec(op, k, res.ev, res.b.st, at),
           [p EXCEPT !.b = res.b, !.bev = res.ev, !.bk = k, !.now = at, !.view = view,
-                    !.ph = IF res.ev # "-" THEN "bemit-done" ELSE "deliver"]>>
+                    !.ph = IF res.ev # "-" THEN "bemit-done"
+                           ELSE IF p.post THEN "aendpost" ELSE "deliver"]>>
 
 SettleRetry(pc, p) ==
     IF pc.retry /\ p.s.pc = "deliver"
@@ -188,19 +193,47 @@ SettleRetry(pc, p) ==
         IN  { Record(pc, p, st[1], st[2], v) }
     ELSE {}
 
-\* admitted call without a retry component: one invocation
+\* admitted call without a retry component: [on_attempt_start,] one invocation
+AStartNoRetry(pc, p) ==
+    IF p.ph = "run" /\ ~pc.retry /\ pc.rc.hooks THEN
+        { <<L!EvAStart(1, 0), [p EXCEPT !.ph = "run1"]>> }
+    ELSE {}
+
 InvokeNoRetry(pc, p) ==
-    IF p.ph = "run" /\ ~pc.retry THEN
+    IF ~pc.retry /\ ((p.ph = "run" /\ ~pc.rc.hooks) \/ p.ph = "run1") THEN
         { <<L!EvInvoke(1, 0, o.out, o.k, o.ra, d),
             [p EXCEPT !.ph = "settle0", !.out = o.out, !.outk = o.k,
                       !.s = [p.s EXCEPT !.now = d]]>>
           : o \in {x \in Outs : x.out # "res"}, d \in Durs }
     ELSE {}
 
+\* what on_attempt_end is told without a retry component (decision, stop reason, cause);
+\* call(): the except ladder passes RetryExhaustedError, CircuitOpenError and the
+\* cancellation kinds by without the hook
+AEndNoRetry(out) ==
+    CASE out = "ok"              -> <<"success", "-", "-">>
+      [] out \in {"exc", "nested"} -> <<"raise", "-", "exception">>
+      [] out = "abort"           -> <<"aborted", "ABORTED", "-">>
+HookedOuts(mode) == IF mode = "call" THEN {"ok", "exc", "abort"} ELSE {"ok", "exc", "nested", "abort"}
+EvAEndNoRetry(p) ==
+    LET a == AEndNoRetry(p.out) IN L!EvAEnd(1, a[1], a[2], a[3], None, p.s.now)
+
+AEndBefore(pc, p) ==
+    IF p.ph = "settle0" /\ pc.rc.hooks /\ p.mode = "call" /\ p.out \in HookedOuts("call") THEN
+        { <<EvAEndNoRetry(p), [p EXCEPT !.ph = "settle1"]>> }
+    ELSE {}
+
 SettleNoRetryStep(pc, p) ==
-    IF p.ph = "settle0" THEN
-        LET st == SettleNoRetry(p.mode, p.out, p.outk) IN
-        { Record(pc, p, st[1], st[2], NoRetryView(p.mode, p.out, p.outk)) }
+    IF \/ p.ph = "settle1"
+       \/ p.ph = "settle0" /\ ~(pc.rc.hooks /\ p.mode = "call" /\ p.out \in HookedOuts("call")) THEN
+        LET st   == SettleNoRetry(p.mode, p.out, p.outk)
+            post == pc.rc.hooks /\ p.mode = "exec" /\ p.out \in HookedOuts("exec")
+        IN  { Record(pc, [p EXCEPT !.post = post], st[1], st[2], NoRetryView(p.mode, p.out, p.outk)) }
+    ELSE {}
+
+AEndAfter(pc, p) ==
+    IF p.ph = "aendpost" THEN
+        { <<EvAEndNoRetry(p), [p EXCEPT !.ph = "deliver", !.post = FALSE]>> }
     ELSE {}
 
 PDeliver(pc, p) ==
@@ -211,5 +244,6 @@ PDeliver(pc, p) ==
 PStep(pc, p) ==
     StartCall(pc, p) \cup PrePoll(pc, p) \cup PreRec(pc, p) \cup Allow(pc, p) \cup BEmit(pc, p)
     \cup RunRetry(pc, p) \cup BClassify(pc, p) \cup SettleRetry(pc, p)
-    \cup InvokeNoRetry(pc, p) \cup SettleNoRetryStep(pc, p) \cup PDeliver(pc, p)
+    \cup AStartNoRetry(pc, p) \cup InvokeNoRetry(pc, p) \cup AEndBefore(pc, p)
+    \cup SettleNoRetryStep(pc, p) \cup AEndAfter(pc, p) \cup PDeliver(pc, p)
 =============================================================================
